@@ -361,6 +361,17 @@ def g_elementwise(tier, seed):
                     None, [{"tenmat": {"shape": [a, b], "rdims": [0]}},
                            {"tenmat": {"shape": [c, d], "rdims": [0], "salt": 1}}],
                     shape=[a, b], shape2=[c, d], recv_arg=0)
+    # the same tensor shape unfolded two ways: an n x 1 and a 1 x n matrix (NumPy would broadcast them to n x n)
+    for sh in ([2], [3], [1, 2], [2, 1], [2, 2], [1, 3], [2, 1, 2]):
+        allm = list(range(len(sh)))
+        for opn in ("__add__", "__sub__"):
+            for r1, r2 in ((allm, []), ([], allm)):
+                yield C("elementwise", "tenmat." + opn, "split",
+                        None, [{"tenmat": {"shape": sh, "rdims": r1}}, {"tenmat": {"shape": sh, "rdims": r2, "salt": 1}}],
+                        shape=sh, shape2=sh, recv_arg=0)
+            yield C("elementwise", "tenmat." + opn, "control",
+                    None, [{"tenmat": {"shape": sh, "rdims": allm}}, {"tenmat": {"shape": sh, "rdims": allm, "salt": 1}}],
+                    shape=sh, shape2=sh, recv_arg=0)
 
 
 TTV_HOLDERS = ("tensor", "sp_full", "sp_empty", "ktensor", "ttensor", "sumtensor")
